@@ -12,7 +12,9 @@ from vlib import Oracle, build_lib, hx, md5
 
 ORACLES = ["framed"]
 THEOREMS = ["C08_header_iff", "C08_headerSize_spec", "C08_wf_invariant", "C08_staging_in_bounds", "C08_no_fuel_out",
-            "C08_progress", "C08_reports_within_given", "C08_complete_sound_oneshot", "C08_complete_sound_oneshot_usingDict"]
+            "C08_progress", "C08_reports_within_given", "C08_complete_sound_oneshot", "C08_complete_sound_oneshot_usingDict",
+            "C08_chunking_sound", "C08_chunking_complete", "C08_chunking_reaches", "C08_chunking_independent",
+            "C08_chunking_sound_usingDict", "C08_chunking_complete_usingDict", "C08_chunking_reaches_usingDict"]
 CORRESPONDENCE = ["FrameD.decompress / decompress_usingDict model == LZ4F_decompress(_usingDict): per call (consumed, produced, dst bytes, return value / error code)",
                   "FrameD.getFrameInfo / headerSize model == LZ4F_getFrameInfo / LZ4F_headerSize (consumed, return value, reported fields)"]
 RULE = ("frames built from parts in Python (header fields x raw/compressed/empty blocks from an independent sequence encoder x block/content "
